@@ -1,7 +1,7 @@
 (* C05 property theorems: statements only; proofs live in Proofs/C05.v and Proofs/C05_Back.v. *)
 From Coq Require Import String List.
 From TS Require Import Model.Str Model.Outcome Model.Unicode Model.Syntax Model.Types Model.Lang.Common Model.Lang.Decl Model.Lang.TypeScript Model.Lang.Kotlin Model.Lang.Scala Model.Lang.Swift Model.Lang.Go Model.Lang.Python Spec.C05Spec.
-From TS Require Proofs.C05 Proofs.C05_Back Proofs.C05_Sites.
+From TS Require Proofs.C05 Proofs.C05_Back Proofs.C05_Sites Proofs.GoAcronyms Proofs.C05_GoAcr Spec.C02Spec.
 Import ListNotations.
 
 (* ---- syn type -> IR ---- *)
@@ -426,3 +426,141 @@ Theorem C05_site_go_variant_fields :
         map (fun mm => go_obs_ty (gm_type mm)) ms = map (fun f => c05_erase Go (Proofs.C05_Back.c05_go_cfg cfg) (egenerics sh) (fty f)) fields.
 Proof. exact Proofs.C05_Sites.C05_site_go_variant_fields. Qed.
 Print Assumptions C05_site_go_variant_fields.
+
+(* ---- Go under EVERY alphanumeric uppercase_acronyms list (lifts the `go_uppercase_acronyms cfg = []` restriction of
+        C05_site_go_struct / _payload / _variant_fields above; Proofs/C05_GoAcr.v over Proofs/GoAcronyms.v) ----
+   Hypotheses: the acronyms are [A-Za-z0-9]* (ga_alnum: what an acronym is), the type names and the type_mappings values
+   the declared type can reach are ASCII (ga_texp_asciib), so are the names that are converted on the way (struct name,
+   field names, variant name, tag key), and the Unicode table agrees with ASCII below 128 (unicode_ok).  Outside
+   (a non-alphanumeric acronym could straddle `]` or `*`; byte and char offsets drift apart on non-ASCII text, C07) the
+   rewrite of go.rs:579 has no closed form and nothing is claimed.
+   Statement: nothing panics, and the type written at a struct field / struct-variant field / tuple-variant payload is
+       c05_go_acronyms acrs (c05_erase Go cfg generics T)
+   the translation of the declared type with EVERY name replaced by its acronym rewrite (Spec.C02Spec.c02_go_rewrite, the
+   spec-level closed form of go.rs:579): containers, `*`, the order of generic arguments and the place of each name are those
+   of the translation; the rewrite changes only the ASCII CASE of letters of a name - of a user type (UserId -> UserID), of
+   a GENERIC PARAMETER (TId -> TID) and of the configured name of a type mapping (ApiUrl -> ApiURL) alike.  Alias targets
+   and const types are not rewritten (C05_site_go_alias, C05_site_go_const hold for every acronym list).
+   Whether the rewritten use agrees with the definition it refers to is C09's subject: on the real code a struct is declared
+   under the rewrite of its name and so agrees with its uses in fields and payloads, but an alias target / const type keeps
+   the unrewritten name (finding C09-go-acronym-target), a generic parameter is declared unrewritten in `[TId any]` and used
+   rewritten (finding C09-go-acronym-generic), and the ...Inner helper gets one pass more at its use (C09-go-acronym-inner). *)
+
+(* the rewrite of one name is the model's (the real code's) conversion on ASCII input, which never panics there *)
+Theorem C05_go_rewrite_is_model :
+  forall (uc : unicode), unicode_ok uc -> forall (acrs : list str) (name : str),
+    forallb (forallb is_ascii) acrs = true -> forallb is_ascii name = true ->
+    go_convert_acronyms_to_uppercase uc acrs name = Ok (Spec.C02Spec.c02_go_rewrite acrs name).
+Proof. exact Proofs.C05_GoAcr.C05_go_rewrite_is_model. Qed.
+Print Assumptions C05_go_rewrite_is_model.
+
+(* it changes the ASCII case of letters and nothing else - for every acronym list and every name *)
+Theorem C05_go_rewrite_case_only :
+  forall (acrs : list str) (n : str),
+    List.length (Spec.C02Spec.c02_go_rewrite acrs n) = List.length n /\
+    str_upper_ascii (Spec.C02Spec.c02_go_rewrite acrs n) = str_upper_ascii n.
+Proof. exact Proofs.C05_GoAcr.C05_go_rewrite_case_only. Qed.
+Print Assumptions C05_go_rewrite_case_only.
+
+(* a name without lowercase letters (T, K, an all-capitals type) is left alone *)
+Theorem C05_go_rewrite_no_lower :
+  forall (acrs : list str) (n : str),
+    forallb (fun c => negb (is_alower c)) n = true -> Spec.C02Spec.c02_go_rewrite acrs n = n.
+Proof. exact Proofs.C05_GoAcr.C05_go_rewrite_no_lower. Qed.
+Print Assumptions C05_go_rewrite_no_lower.
+
+(* the rewrite of a type expression keeps its shape: generic arguments stay, each rewritten, in order; a configured name
+   stands where the mapped type stood (case may change); sequences, maps and `*` are untouched *)
+Theorem C05_go_acronyms_shape :
+  forall (acrs : list str),
+    (forall n args, c05_go_acronyms acrs (XName n args) = XName (Spec.C02Spec.c02_go_rewrite acrs n) (map (c05_go_acronyms acrs) args)) /\
+    (forall n, c05_go_acronyms acrs (XRaw n) = XRaw (Spec.C02Spec.c02_go_rewrite acrs n)) /\
+    (forall e, c05_go_acronyms acrs (XSeq e) = XSeq (c05_go_acronyms acrs e)) /\
+    (forall k v, c05_go_acronyms acrs (XMap k v) = XMap (c05_go_acronyms acrs k) (c05_go_acronyms acrs v)) /\
+    (forall e, c05_go_acronyms acrs (XOpt e) = XOpt (c05_go_acronyms acrs e)).
+Proof. exact Proofs.C05_GoAcr.C05_go_acronyms_shape. Qed.
+Print Assumptions C05_go_acronyms_shape.
+
+(* with no acronyms the Go verdict of the check is the plain one *)
+Theorem C05_good_site_go_nil :
+  forall c s g t obs, good_C05_site_go [] c s g t obs = good_C05_site Go c s g t obs.
+Proof. exact Proofs.C05_GoAcr.C05_good_site_go_nil. Qed.
+Print Assumptions C05_good_site_go_nil.
+
+Theorem C05_site_go_struct_acronyms :
+  forall (uc : unicode), unicode_ok uc ->
+  forall (cfg : go_config), forallb (forallb Proofs.GoAcronyms.ga_alnum) (go_uppercase_acronyms cfg) = true ->
+  forall (rs : rstruct),
+    forallb is_ascii (renamed (sid rs)) = true ->
+    Forall (Proofs.C05_GoAcr.c05_go_field_ok cfg (sgenerics rs)) (sfields rs) ->
+    forall st, exists d st', go_struct_decl_of uc cfg rs st = Ok (d, st') /\
+      exists docs name ms, d = GOStruct docs name (sgenerics rs) ms /\
+        map (fun mm => go_obs_ty (gm_type mm)) ms =
+        map (fun f => c05_go_acronyms (go_uppercase_acronyms cfg) (c05_erase Go (Proofs.C05_Back.c05_go_cfg cfg) (sgenerics rs) (fty f))) (sfields rs).
+Proof. exact Proofs.C05_GoAcr.C05_site_go_struct_acr. Qed.
+Print Assumptions C05_site_go_struct_acronyms.
+
+(* c05_go_field_ok: the field is in the quantifier, outside the classes, not overridden (c05_field_ok), and the type names /
+   type_mappings values its type can reach and its own name are ASCII *)
+Theorem C05_go_field_ok_unfold :
+  forall (cfg : go_config) (g : list str) (f : rfield),
+    Proofs.C05_GoAcr.c05_go_field_ok cfg g f <->
+    (Proofs.C05_Sites.c05_field_ok Go (Proofs.C05_Back.c05_go_cfg cfg) g f /\
+     Proofs.GoAcronyms.ga_texp_asciib cfg (fty f) = true /\ forallb is_ascii (original (fid f)) = true).
+Proof. exact Proofs.C05_GoAcr.c05_go_field_ok_unfold. Qed.
+Print Assumptions C05_go_field_ok_unfold.
+
+Theorem C05_site_go_payload_acronyms :
+  forall (uc : unicode), unicode_ok uc ->
+  forall (cfg : go_config), forallb (forallb Proofs.GoAcronyms.ga_alnum) (go_uppercase_acronyms cfg) = true ->
+  forall (sh : eshared) (cs : list str) (sn tk : str) (t : rtype) (vsh : vshared),
+    dom_C05 t = true -> known_C05 Go (Proofs.C05_Back.c05_go_cfg cfg) [] t = None ->
+    Proofs.GoAcronyms.ga_texp_asciib cfg t = true ->
+    forallb is_ascii (original (vid vsh)) = true -> forallb is_ascii tk = true ->
+    forall st, exists v st', go_variant_of uc cfg sh cs sn tk (VTuple t vsh) st = Ok (v, st') /\
+      exists ty p, gv_content v = GCType ty p /\
+        go_obs_ty ty = c05_go_acronyms (go_uppercase_acronyms cfg) (c05_erase Go (Proofs.C05_Back.c05_go_cfg cfg) (egenerics sh) t).
+Proof. exact Proofs.C05_GoAcr.C05_site_go_payload_acr. Qed.
+Print Assumptions C05_site_go_payload_acronyms.
+
+Theorem C05_site_go_variant_fields_acronyms :
+  forall (uc : unicode), unicode_ok uc ->
+  forall (cfg : go_config), forallb (forallb Proofs.GoAcronyms.ga_alnum) (go_uppercase_acronyms cfg) = true ->
+  forall (sh : eshared) (name vo : str) (fields : list rfield),
+    forallb is_ascii name = true ->
+    Forall (Proofs.C05_GoAcr.c05_go_field_ok cfg (egenerics sh)) fields ->
+    forall st, exists d st', go_struct_decl_of uc cfg (anon_struct sh name vo fields) st = Ok (d, st') /\
+      exists docs n gs ms, d = GOStruct docs n gs ms /\
+        map (fun mm => go_obs_ty (gm_type mm)) ms =
+        map (fun f => c05_go_acronyms (go_uppercase_acronyms cfg) (c05_erase Go (Proofs.C05_Back.c05_go_cfg cfg) (egenerics sh) (fty f))) fields.
+Proof. exact Proofs.C05_GoAcr.C05_site_go_variant_fields_acr. Qed.
+Print Assumptions C05_site_go_variant_fields_acronyms.
+
+(* what the theorems give is what the check's Go verdict (good_C05_site_go) accepts at the rewritten sites *)
+Theorem C05_good_site_go_of_obs :
+  forall acrs c s g t x,
+    c05_go_site_rewritten s = true -> x = c05_go_acronyms acrs (c05_erase Go c (c05_site_generics s g) t) ->
+    good_C05_site_go acrs c s g t (Some x) = true.
+Proof. exact Proofs.C05_GoAcr.C05_good_site_go_of_obs. Qed.
+Print Assumptions C05_good_site_go_of_obs.
+
+(* the hypotheses are satisfiable with real rewrites: below `*[]`, in a map value, of a generic parameter, of a mapped name;
+   the acronym ID is given in upper case (its PascalCase form Id is what go.rs:582 searches) *)
+Theorem C05_site_go_struct_acronyms_nonvacuous :
+  let cfg := {| go_package := lit "p"; go_type_mappings := [(lit "Mapped", lit "ApiUrl")]; go_uppercase_acronyms := [lit "ID"; lit "url"];
+                go_no_version_header := true; go_no_pointer_slice := false; go_version := [] |} in
+  let fld n t := {| fid := {| original := lit n; renamed := lit n; via_serde_rename := false |}; fty := t; fcomments := [];
+                    has_default := false; fdecs := [] |} in
+  let rs := {| sid := {| original := lit "S"; renamed := lit "S"; via_serde_rename := false |}; sgenerics := [lit "TId"];
+               sfields := [fld "a"%string (ROption (RVec (RSimple (lit "UserId")))); fld "b"%string (RHashMap (RPrim PString) (RSimple (lit "Url")));
+                           fld "c"%string (RSimple (lit "TId")); fld "d"%string (RSimple (lit "Mapped"))];
+               scomments := []; sdecs := []; sredacted := false |} in
+  forallb (forallb Proofs.GoAcronyms.ga_alnum) (go_uppercase_acronyms cfg) = true /\
+  forallb is_ascii (renamed (sid rs)) = true /\
+  forallb (fun f => dom_C05 (fty f) && match known_C05 Go (Proofs.C05_Back.c05_go_cfg cfg) (sgenerics rs) (fty f) with None => true | _ => false end &&
+                    match type_override f Go with None => true | _ => false end &&
+                    Proofs.GoAcronyms.ga_texp_asciib cfg (fty f) && forallb is_ascii (original (fid f))) (sfields rs) = true /\
+  map (fun f => c05_go_acronyms (go_uppercase_acronyms cfg) (c05_erase Go (Proofs.C05_Back.c05_go_cfg cfg) (sgenerics rs) (fty f))) (sfields rs) =
+  [XOpt (XSeq (XName (lit "UserID") [])); XMap (XName (lit "string") []) (XName (lit "URL") []); XName (lit "TID") []; XRaw (lit "ApiURL")].
+Proof. exact Proofs.C05_GoAcr.C05_site_go_struct_acr_nonvacuous. Qed.
+Print Assumptions C05_site_go_struct_acronyms_nonvacuous.
